@@ -252,6 +252,47 @@ impl SenderKind {
     #[verifier::external_body] pub fn send_empty_ok_response(&mut self) -> (r: Result<(), IggyError>) { unimplemented!() }
 }
 pub struct LogoutUser {}
+#[verifier::external_body]
+pub struct RespBytes { x: u8 }
+impl SenderKind {
+    #[verifier::external_body] pub fn send_ok_response(&mut self, payload: &RespBytes) -> (r: Result<(), IggyError>) { unimplemented!() }
+}
+pub mod mapper {
+    use super::*;
+    #[verifier::external_body] pub fn map_user(user: &User) -> (r: RespBytes) { unimplemented!() }
+    #[verifier::external_body] pub fn map_raw_pat(token: &Name) -> (r: RespBytes) { unimplemented!() }
+}
+impl<'a> From<&'a str> for Name {
+    #[verifier::external_body]
+    fn from(v: &'a str) -> (r: Name) { unimplemented!() }
+}
+
+// --- the state journal as the credential functions see it: `Arc<StateKind>` -> `StateLog`. The commands handed to
+// `apply` are recorded in a ghost sequence (what FileState::apply does with them is C11/C19's subject). A failed
+// apply may or may not have written the entry (fault scope).
+pub enum EntryCommand {
+    CreateUser(CreateUser),
+    ChangePassword(ChangePassword),
+    CreatePersonalAccessToken(CreatePersonalAccessTokenWithHash),
+    Other,
+}
+#[verifier::external_body]
+pub struct StateLog { x: u8 }
+impl StateLog {
+    pub uninterp spec fn log(&self) -> Seq<EntryCommand>;
+    #[verifier::external_body]
+    pub fn apply(&mut self, user_id: u32, command: EntryCommand) -> (r: Result<(), IggyError>)
+        ensures
+            final(self).log() == old(self).log().push(command) || (r is Err && final(self).log() == old(self).log()),
+    { unimplemented!() }
+}
+// the journal grew by nothing, or by exactly one command satisfying p
+pub open spec fn journaled_at_most(a: &StateLog, b: &StateLog, p: spec_fn(EntryCommand) -> bool) -> bool {
+    b.log() == a.log() || exists|c: EntryCommand| b.log() == a.log().push(c) && #[trigger] p(c)
+}
+pub open spec fn journaled_one(a: &StateLog, b: &StateLog, p: spec_fn(EntryCommand) -> bool) -> bool {
+    exists|c: EntryCommand| b.log() == a.log().push(c) && #[trigger] p(c)
+}
 
 // --- R8 closure schemas over maps (documented std semantics; iteration order abstracted) ------------------------------
 // m.iter().find(|(k, v)| P).map(|(_, v)| v)
